@@ -20,3 +20,9 @@ package ioutil2
 //@ props C08
 //@ modifies nothing
 //@ ensures [one-pass-or-unseekable-source-is-read-once] imp(passes == 1 || !typeis(r, io.ReadSeeker), result == r)
+
+// The callback writer passes every write through unchanged and tells the callback before it.
+//@ func NewCallbackWriter#lit0
+//@ props C06
+//@ at call w.Write assert [the-same-bytes-after-the-callback] arg(p) == p0 && calls(onWrite) == 1
+//@ ensures [write-outcome-is-returned] n == result_of(w.Write, 0) && err == result_of(w.Write, 1) && calls(w.Write) == 1
